@@ -880,18 +880,22 @@ Lemma Inv_step_hdrread s t otag got dl :
 Proof.
   intros I P. unfold step_hdrread.
   destruct (stake (s_now s) (HDRLEN - got) (s_script s)) as [g sc'].
-  set (s1 := set_consumed (set_script (set_hdr s (overwrite (s_hdr s) got g)) sc') (s_consumed s ++ g)).
-  assert (V1 : same_view s s1).
+  set (s0 := set_consumed (set_script (set_hdr s (overwrite (s_hdr s) got g)) sc') (s_consumed s ++ g)).
+  assert (V0 : same_view s s0).
   { eapply same_view_trans; [apply sv_set_hdr|]. eapply same_view_trans; [apply sv_set_script|apply sv_set_consumed]. }
-  assert (I1 : Inv s1) by (eapply Inv_view; eauto).
-  assert (R1 : reader_otag (pcof s1 t) = Some otag) by (rewrite (sv_pc _ _ V1), P; reflexivity).
-  assert (A1 : adopted_by (pcof s1 t) = None) by (rewrite (sv_pc _ _ V1), P; reflexivity).
+  assert (I0 : Inv s0) by (eapply Inv_view; eauto).
+  set (s1 := set_pc s0 t (PHdrRead otag (got + length g) dl)).
+  assert (I1 : Inv s1).
+  { eapply Inv_pc_same_class; [exact I0|apply pc_upd_set_pc|..]; rewrite (sv_pc _ _ V0), P; reflexivity. }
+  assert (P1 : pcof s1 t = PHdrRead otag (got + length g) dl) by (unfold s1; rewrite pcof_set_pc, Nat.eqb_refl; reflexivity).
+  assert (R1 : reader_otag (pcof s1 t) = Some otag) by (rewrite P1; reflexivity).
+  assert (A1 : adopted_by (pcof s1 t) = None) by (rewrite P1; reflexivity).
   destruct (read_status (s_now s) dl (HDRLEN - (got + length g)) sc').
   - apply Inv_hdr_complete; auto.
   - apply Inv_hdr_short; auto.
   - apply Inv_hdr_short; auto.
     + eapply Inv_view; [apply sv_set_errno|exact I1].
-  - eapply Inv_pc_same_class; [exact I1|apply pc_upd_sleep|..]; rewrite (sv_pc _ _ V1), P; reflexivity.
+  - eapply Inv_pc_same_class; [exact I1|apply pc_upd_sleep|..]; rewrite P1; reflexivity.
 Qed.
 
 Lemma Inv_step_bodyread s t otag targ size need dl :
@@ -919,16 +923,22 @@ Proof.
           apply Nat.eqb_eq in Eb. subst. reflexivity.
         * rewrite ctx_upd_ctx, Nat.eqb_refl. reflexivity. }
   destruct H2 as (I2 & P2 & M2 & T2 & T02).
-  assert (R2 : reader_otag (pcof s2 t) = Some otag) by (rewrite P2; exact R).
-  assert (In2 : inside (pcof s2 targ) = true) by (rewrite P2; exact Tin).
-  assert (Mp2 : forall k, ~ In (k, targ) (s_map s2)) by (intros k; rewrite M2; apply Tmap).
-  assert (Tg2 : c_tag (s_ctx s2 t) = c_tag0 (s_ctx s2 targ)) by congruence.
+  set (s3 := set_pc s2 t (PBodyRead otag targ size (need - length g) dl)).
+  assert (I3 : Inv s3).
+  { eapply Inv_pc_same_class; [exact I2|apply pc_upd_set_pc|..]; rewrite P2, P; reflexivity. }
+  assert (P3 : forall x, pcof s3 x = if Nat.eqb x t then PBodyRead otag targ size (need - length g) dl else pcof s x).
+  { intros x. unfold s3. rewrite pcof_set_pc, P2. reflexivity. }
+  assert (R3 : reader_otag (pcof s3 t) = Some otag) by (rewrite P3, Nat.eqb_refl; reflexivity).
+  assert (In3 : inside (pcof s3 targ) = true).
+  { rewrite P3. destruct (Nat.eqb targ t); [reflexivity|exact Tin]. }
+  assert (Mp3 : forall k, ~ In (k, targ) (s_map s3)) by (intros k; change (s_map s3) with (s_map s2); rewrite M2; apply Tmap).
+  assert (Tg3 : c_tag (s_ctx s3 t) = c_tag0 (s_ctx s3 targ)) by (change (s_ctx s3) with (s_ctx s2); congruence).
   destruct (read_status (s_now s) dl (need - length g) sc').
   - apply Inv_body_end; auto.
   - apply Inv_body_end; auto.
   - apply Inv_body_end; auto.
-    eapply Inv_view; [apply sv_set_errno|exact I2].
-  - eapply Inv_pc_same_class; [exact I2|apply pc_upd_sleep|..]; rewrite P2, P; reflexivity.
+    eapply Inv_view; [apply sv_set_errno|exact I3].
+  - eapply Inv_pc_same_class; [exact I3|apply pc_upd_sleep|..]; rewrite P3, Nat.eqb_refl; reflexivity.
 Qed.
 
 Lemma Inv_step_readerloop s t otag :
@@ -1049,14 +1059,16 @@ Qed.
 
 Lemma Inv_step s e s' : Inv s -> step s e = Some s' -> Inv s'.
 Proof.
-  intros I. destruct e as [t|t|d|]; cbn.
-  - destruct (Nat.ltb t (nthreads s)); [|discriminate]. destruct (t_stat (s_thr s t)); [|discriminate].
+  intros I. destruct e as [t|t|d|]; unfold step.
+  - destruct (Nat.ltb t (nthreads s)); [|intros H; discriminate H].
+    destruct (t_stat (s_thr s t)); [|intros H; discriminate H].
     intros H; inversion H; subst. apply Inv_micro; auto.
-  - destruct (Nat.ltb t (nthreads s)); [|discriminate]. destruct (t_stat (s_thr s t)); [discriminate|].
-    destruct (dl <=? s_now s); [|discriminate]. intros H; inversion H; subst.
+  - destruct (Nat.ltb t (nthreads s)); [|intros H; discriminate H].
+    destruct (t_stat (s_thr s t)); [intros H; discriminate H|].
+    destruct (dl <=? s_now s); [|intros H; discriminate H]. intros H; inversion H; subst.
     eapply Inv_view; [|exact I]. constructor; try reflexivity.
     intros x. unfold pcof. cbn. unfold updn. destruct (Nat.eqb_spec x t); subst; reflexivity.
-  - destruct (0 <=? d); [|discriminate]. intros H; inversion H; subst.
+  - destruct (0 <=? d); [|intros H; discriminate H]. intros H; inversion H; subst.
     eapply Inv_view; [apply sv_set_now|exact I].
   - intros H; inversion H; subst. eapply Inv_view; [|exact I]. constructor; reflexivity.
 Qed.
@@ -1064,9 +1076,6 @@ Qed.
 Lemma Inv_init calls script : Inv (init true calls script).
 Proof.
   constructor; cbn; try reflexivity; try discriminate; try contradiction; auto.
-  - intros t H. discriminate.
-  - intros t H. discriminate.
-  - intros t u H. discriminate.
 Qed.
 
 Lemma Inv_run s es s' : Inv s -> run_events s es = Some s' -> Inv s'.
@@ -1117,11 +1126,11 @@ Proof.
 Qed.
 
 Lemma d_ok_wake_list s0 l : forall d, d_ok s0 d -> d_ok s0 (d_wake_list d l).
-Proof. induction l as [|w r IH]; cbn; intros d H; [exact H|]. apply IH. exact H. Qed.
+Proof. induction l as [|w r IH]; cbn [d_wake_list]; intros d H; [exact H|]. apply IH. exact H. Qed.
 
 Lemma d_ok_run_thread s0 fuel t : forall d, d_ok s0 d -> d_ok s0 (d_run_thread fuel d t).
 Proof.
-  induction fuel as [|f IH]; cbn; intros d H; [exact H|].
+  induction fuel as [|f IH]; cbn [d_run_thread]; intros d H; [exact H|].
   destruct (t_stat (s_thr (d_st d) t)).
   - apply IH. apply d_ok_apply. exact H.
   - pose proof (d_ok_wake_list s0 (s_woken (d_st d)) _ (d_ok_apply s0 d EvAck H)) as K. exact K.
@@ -1129,7 +1138,7 @@ Qed.
 
 Lemma d_ok_resume s0 fuel : forall d, d_ok s0 d -> d_ok s0 (d_resume fuel d).
 Proof.
-  induction fuel as [|f IH]; cbn; intros d H; [exact H|].
+  induction fuel as [|f IH]; cbn [d_resume]; intros d H; [exact H|].
   destruct (front (d_heap d)) as [[|t]|]; try exact H.
   destruct (d_ts d (S t) <=? s_now (d_st d)); [|exact H].
   apply IH. apply d_ok_apply. exact H.
@@ -1137,18 +1146,19 @@ Qed.
 
 Lemma d_ok_drive s0 tfuel fuel : forall d, d_ok s0 d -> d_ok s0 (drive tfuel fuel d).
 Proof.
-  induction fuel as [|f IH]; cbn; intros d H; [exact H|].
+  induction fuel as [|f IH]; cbn [drive]; intros d H; [exact H|].
   destruct (d_ring d) as [|[|t] rest]; [exact H| |].
   - pose proof (d_ok_resume s0 (S (length (hq (d_heap d)))) d H) as K.
     set (d1 := d_resume (S (length (hq (d_heap d)))) d) in *.
-    destruct (d_ring d1) as [|[|t1] [|r2 rest2]]; try exact K.
-    + destruct (front (d_heap d1)); [|exact K]. destruct (d_ts d1 t =? MAX64); [exact K|].
-      apply IH. apply d_ok_apply. exact K.
-    + apply IH. exact K.
-    + destruct (front (d_heap d1)); [|exact K]. destruct (d_ts d1 t =? MAX64); [exact K|].
-      apply IH. apply d_ok_apply. exact K.
-    + destruct (front (d_heap d1)); [|exact K]. destruct (d_ts d1 t =? MAX64); [exact K|].
-      apply IH. apply d_ok_apply. exact K.
+    assert (Idle : d_ok s0 (match front (d_heap d1) with
+                            | None => d1
+                            | Some x => if d_ts d1 x =? MAX64 then d1
+                                        else drive tfuel f (d_apply d1 (EvTick (Z.min IDLE_MAX (sat_sub (d_ts d1 x) (s_now (d_st d1))))))
+                            end)).
+    { destruct (front (d_heap d1)); [|exact K]. destruct (d_ts d1 t =? MAX64); [exact K|].
+      apply IH. apply d_ok_apply. exact K. }
+    destruct (d_ring d1) as [|[|t1] [|r2 rest2]]; try exact Idle.
+    apply IH. exact K.
   - apply IH. apply d_ok_run_thread. exact H.
 Qed.
 
